@@ -150,7 +150,8 @@ class Family:
     """what TLC enumerated: the configurations, and per grid (kind, n, variant) the recipe, the porepy grid and the
     admissible Neumann sets of at most max_neu faces"""
 
-    def __init__(self, ctx, sizes, mus, lams, bcmodes=("dir", "mix"), max_neu=2, with_sets=True, coefs=None, alphacat=()):
+    def __init__(self, ctx, sizes, mus, lams, bcmodes=("dir", "mix"), max_neu=2, with_sets=True, coefs=None, alphacat=(),
+                 roll_modes=()):
         rng = ctx.rng
         self.keys = [(k, tuple(n), v) for k in ("cart", "simplex") for n in sorted(sizes, key=lambda t: (len(t), t))
                      for v in ("plain", "perturbed")]
@@ -161,19 +162,23 @@ class Family:
                       Mus=set(mus), Lams=set(lams), BcModes=set(bcmodes), Fields=[f_["G"] for f_ in FIELDS],
                       Coefs=tlc.Raw("{" + ", ".join(tlc.tla(c) for c in (coefs or [dict(alpha=0, p=0)])) + "}"),
                       AlphaCat=[list(map(list, a)) for a in alphacat],
-                      Grids=exported, MaxNeu=max_neu)  # inline: a genuine constant, so TLC evaluates AdmSets once
+                      Grids=exported, MaxNeu=max_neu, RollModes=set(roll_modes))  # inline: a genuine constant, so TLC evaluates AdmSets once
         m, cf = tlc.gen(ctx.work / f"enum{len(ctx.tlc_runs)}", "MC_MechEnum", "MechOracleEnum", consts, spec="Spec",
                         invariants=["Emit", "LawsCfg", "LawFamily"])
         res = ctx.tlc(m, cf, workers=4, allow_violation=False)
         self.configs = [r for r in res.records if "kind" in r]
         self.configs.sort(key=lambda r: (len(r["n"]), r["kind"], r["n"], r["variant"], r["mu"], r["lam"], r["bc"],
                                          r["coef"]["alpha"], r["coef"]["p"]))
-        self.neusets = {k: [] for k in self.keys}
+        self.neusets = {k: [] for k in self.keys}    # fully Neumann face sets
+        self.rollsets = {k: [] for k in self.keys}   # component-wise assignments: dict(mode, nc=[[face, component], ...])
         for r in res.records:
-            if "neu" in r:
+            if "neu" in r and r.get("mode", "face") == "face":
                 self.neusets[self.keys[r["g"] - 1]].append(list(r["neu"]))
+            elif "nc" in r:
+                self.rollsets[self.keys[r["g"] - 1]].append(dict(mode=r["mode"], nc=[list(x) for x in r["nc"]]))
         for k in self.neusets:
             self.neusets[k].sort(key=lambda s: (len(s), s))
+            self.rollsets[k].sort(key=lambda d: (d["mode"], len(d["nc"]), d["nc"]))
 
 
 # ---------------------------------------------------------------------------------------------------
@@ -207,12 +212,17 @@ def linear_data(g, mu, lam, fld, dirf, neu0, sgn):
     return uc.ravel("F"), bcv.ravel("F")
 
 
-def vector_bc(g, dirf, neu0):
+def vector_bc(g, dirf, neu0, nc=()):
+    """Dirichlet on dirf, Neumann on neu0; nc = [[face, component], ...] (1-based): further components set to Neumann"""
     import porepy as pp
 
     faces = np.concatenate([dirf, neu0]).astype(int)
     cond = ["dir"] * len(dirf) + ["neu"] * len(neu0)
-    return pp.BoundaryConditionVectorial(g, faces, cond)
+    bc = pp.BoundaryConditionVectorial(g, faces, cond)
+    for f, k in nc:
+        bc.is_dir[k - 1, f - 1] = False
+        bc.is_neu[k - 1, f - 1] = True
+    return bc
 
 
 # ---------------------------------------------------------------------------------------------------
